@@ -146,6 +146,19 @@ pub fn vertex_shapes(thorough: bool, o: (i32, i32), rng: &mut Rng) -> Vec<Value>
             }
         }
     }
+    // open polylines whose segments are all exactly horizontal or vertical (staircases, combs, with and without a
+    // translation)
+    for (k, pts) in [vec![(0, 0), (5, 0)], vec![(0, 0), (0, 4)], vec![(0, 0), (4, 0), (4, 3)], vec![(6, 5), (2, 5), (2, 1), (7, 1)],
+                     vec![(0, 0), (3, 0), (3, 2), (6, 2), (6, 5), (9, 5)], vec![(8, 8), (8, 2), (1, 2), (1, 6), (5, 6)], vec![(0, 3), (7, 3), (7, 0), (2, 0), (2, 8)]]
+        .iter()
+        .enumerate()
+    {
+        for off in [(0, 0), (3, -2)] {
+            let pv: Vec<Value> = pts.iter().map(|p| json!([ox + p.0, oy + p.1])).collect();
+            let _ = k;
+            v.push(json!({"k":"polyline","v":pv,"off":[off.0, off.1]}));
+        }
+    }
     let ds: Vec<u32> = if thorough { (0..=12).chain([15, 16, 23, 24]).collect() } else { vec![0, 1, 2, 3, 4, 5, 6, 7, 8, 15, 16] };
     let sweeps = [-400, -360, -225, -90, -30, 0, 45, 135, 200, 360];
     for &d in &ds {
